@@ -174,6 +174,11 @@ pub fn run(args: &Args) {
             check_one(&mut rep, &s, "token-soup", &strict, false);
             note_distinct(&mut rep, &s);
             rep.sample_family("token-soup", 2, json!(s));
+        } else if fam < 86 {
+            let s = hostile_quoted_sentence(&mut rng);
+            check_one(&mut rep, &s, "hostile-quoted-token", &strict, false);
+            note_distinct(&mut rep, &s);
+            rep.sample_family("hostile-quoted-token", 2, json!(s));
         } else if fam < 92 {
             let s = char_soup(&mut rng, 40);
             check_one(&mut rep, &s, "char-soup", &strict, false);
